@@ -1,12 +1,12 @@
 #!/bin/sh
-# run_all.sh [tier]: runs every check on /repo's current tree (regenerates all evidence files); prints one line per check
+# run_all.sh [tier]: runs every check on /repo's current tree (regenerates all evidence files); one compact line per check
 cd "$(dirname "$0")"
 [ -x bin/vcheck ] || ./setup.sh >/dev/null
 git -C /repo diff --quiet || { echo "WARNING: /repo has uncommitted changes"; }
 rc=0
 for p in $(./bin/vcheck list); do
   out=$(./check.sh $p ${1:-quick} 2>&1); r=$?
-  echo "$out" | tail -1 | cut -c1-220
-  [ $r -ne 0 ] && { echo "  ^^ rc=$r"; echo "$out" | grep -E "VIOLATION|HARNESS|NONDET" | head -5; rc=1; }
+  echo "$p rc=$r $(echo "$out" | tail -1 | grep -o 'cases=[0-9]*\|violations=[0-9]*\|exhaustive=[a-z]*\|wall=[0-9.]*s' | tr '\n' ' ')"
+  [ $r -ne 0 ] && { echo "$out" | grep -E "VIOLATION|HARNESS|NONDET|key=" | head -6; rc=1; }
 done
 exit $rc
